@@ -195,9 +195,11 @@ def add_for_loop_no_yield_nodes(bytecode: Bytecode) -> Bytecode:  # noqa: D103
 
 def get_branch_type(opcode: int) -> bool | None:  # noqa: D103
     match opname[opcode]:
-        case "POP_JUMP_IF_TRUE" | "POP_JUMP_IF_NOT_NONE":
+        case "POP_JUMP_IF_TRUE" | "POP_JUMP_IF_NOT_NONE" | "POP_JUMP_IF_NONE":
+            # The none-based jumps are traced as `is None` / `is not None` predicates
+            # (see NONE_BASED_JUMPS_MAPPING), which hold exactly when the jump is taken.
             return True
-        case "POP_JUMP_IF_FALSE" | "POP_JUMP_IF_NONE" | "FOR_ITER":
+        case "POP_JUMP_IF_FALSE" | "FOR_ITER":
             return False
         case _:
             return None
